@@ -1,0 +1,100 @@
+//! Verification hooks.
+//!
+//! Only compiled with the `verif-hooks` feature, which is never
+//! enabled by this workspace. It exposes the crate-private
+//! shared-memory [`Mutex`][crate::mutex::Mutex] to out-of-tree
+//! runtime monitors and provides registrable pause points.
+//!
+//! Nothing in here changes behaviour unless a pause hook has
+//! been registered with [`set_pause_hook`].
+
+use core::{
+    ops::{Deref, DerefMut},
+    ptr,
+    sync::atomic::{AtomicPtr, Ordering},
+};
+
+/// Pause point: the fast-path CAS in `Mutex::sys_lock` failed.
+pub const PAUSE_AFTER_FAILED_CAS: u32 = 1;
+/// Pause point: between `swap(MUTEX_SLEEPING)` and `futex_wait`
+/// in `Mutex::sys_lock`.
+pub const PAUSE_BEFORE_FUTEX_WAIT: u32 = 2;
+/// Pause point: between the unlocking `swap` and `futex_wake` in
+/// `Mutex::sys_unlock`.
+pub const PAUSE_BEFORE_FUTEX_WAKE: u32 = 3;
+
+/// The registered pause hook, or null.
+static PAUSE_HOOK: AtomicPtr<()> = AtomicPtr::new(ptr::null_mut());
+
+/// Registers (or with `None`, unregisters) the function invoked
+/// at each pause point.
+pub fn set_pause_hook(hook: Option<fn(u32)>) {
+    let ptr = match hook {
+        Some(f) => f as *mut (),
+        None => ptr::null_mut(),
+    };
+    PAUSE_HOOK.store(ptr, Ordering::SeqCst);
+}
+
+/// Invokes the registered pause hook, if any.
+///
+/// It is a no-op unless a hook has been registered.
+#[inline]
+pub fn pause(point: u32) {
+    let ptr = PAUSE_HOOK.load(Ordering::Relaxed);
+    if !ptr.is_null() {
+        // SAFETY: the only non-null values stored in
+        // `PAUSE_HOOK` are `fn(u32)` pointers.
+        let f = unsafe { core::mem::transmute::<*mut (), fn(u32)>(ptr) };
+        f(point);
+    }
+}
+
+/// A thin wrapper around the crate-private mutex that is placed
+/// inside shared memory.
+#[derive(Debug, Default)]
+#[repr(transparent)]
+pub struct Mutex<T>(crate::mutex::Mutex<T>);
+
+impl<T> Mutex<T> {
+    /// Creates a new, unlocked mutex.
+    pub fn new(v: T) -> Self {
+        Self(crate::mutex::Mutex::new(v))
+    }
+
+    /// Locks the mutex.
+    ///
+    /// The mutex is unlocked when the guard is dropped.
+    pub fn lock(&self) -> MutexGuard<'_, T> {
+        match self.0.lock() {
+            Ok(guard) => MutexGuard(guard),
+            Err(err) => match err {},
+        }
+    }
+
+    /// Returns the raw mutex word (0 = unlocked, 1 = locked,
+    /// 2 = locked with sleepers) without any synchronization.
+    ///
+    /// For evidence only.
+    pub fn raw_state(&self) -> u32 {
+        self.0.verif_raw_state()
+    }
+}
+
+/// Releases a [`Mutex`] when dropped.
+#[must_use]
+pub struct MutexGuard<'a, T>(crate::mutex::MutexGuard<'a, T>);
+
+impl<T> Deref for MutexGuard<'_, T> {
+    type Target = T;
+
+    fn deref(&self) -> &T {
+        &self.0
+    }
+}
+
+impl<T> DerefMut for MutexGuard<'_, T> {
+    fn deref_mut(&mut self) -> &mut T {
+        &mut self.0
+    }
+}
